@@ -59,11 +59,19 @@ func parseUint(b []byte) (int, error) {
 			return 0, errInvalidUint
 		}
 
+		// One digit more would not fit: a value that wraps is a small number
+		// that passes every later range check.
+		if n > (maxInt-int(c-'0'))/10 {
+			return 0, errInvalidUint
+		}
+
 		n = n*10 + int(c-'0')
 	}
 
 	return n, nil
 }
+
+const maxInt = int(^uint(0) >> 1)
 
 var errInvalidUint = errors.New("invalid unsigned integer")
 
